@@ -57,13 +57,11 @@ impl Buffer {
             return Vec::new();
         }
 
-        let mut target: Vec<u8> = Vec::new();
         // Safety: data is a valid pointer to a buffer of length len aligned
         // This is guaranteed by exposed API to construct this struct
         let buffer = unsafe { std::slice::from_raw_parts(self.data, self.len) };
 
-        target.clone_from_slice(buffer);
-        target
+        buffer.to_vec()
     }
 
     pub fn into_vec(self) -> Vec<u8> {
